@@ -186,7 +186,7 @@ class JoinMonitor(Monitor):
             self.probe("joins")
             if inst.maxc and inst.n and inst.maxc < inst.n:
                 self.probe("joins-with-binding-maxconcurrency")
-            if inst.finished != inst.n:
+            if inst.finished < (inst.n or 0):
                 self.add("C05", "join-before-all-branches",
                          "%s: %s %s exited after %s of %s branches/iterations had finished" % (
                              arn, inst.type, inst.name, inst.finished, inst.n))
